@@ -54,11 +54,36 @@ Proof.
     apply Z.leb_le in Hl. rewrite Hl. reflexivity.
 Qed.
 
+Lemma regex_changes_strict V cd reqs chs :
+  strict V -> regex_changes V cd reqs = Some chs ->
+  forallb change_ok chs = true /\ (reqs = [] -> chs = []).
+Proof.
+  intros HV. revert chs. induction reqs as [|q r IH]; intros chs; cbn.
+  - intros H; inversion H; subst. split; auto.
+  - destruct (mk_change _ _ _ _ _ _ _) as [c|] eqn:E; [|discriminate].
+    destruct (regex_changes V cd r) as [cs|]; [|discriminate]. intros H; inversion H; subst.
+    destruct (IH cs eq_refl) as [I1 _].
+    destruct (mk_change_strict _ _ _ _ _ _ _ _ HV E) as [-> [Hl Hd]].
+    split; [|discriminate].
+    cbn. rewrite I1. unfold change_ok. cbn. destruct cd; [exfalso; apply Hd; reflexivity|]. cbn.
+    apply Z.leb_le in Hl. rewrite Hl. reflexivity.
+Qed.
+
 (** the tables under which the positive statements hold *)
 Definition good_pipe (T : tables) (p : pipe_kind) : Prop :=
   match p with
   | PLibcst => t_libcst T = LibcstGuardChangesDiff
   | PXml cd => t_xml T = XmlDescOrNoneDiffGuard /\ cd <> []
+  | PRegex _ => True
+  end.
+
+(** per file, for the regex pipeline (which has no diff guard and, on the pinned tree, no failure handling): the run is not
+    aborted by this file, and difflib's contract: when some line was rewritten the diff is not empty *)
+Definition file_pre (T : tables) (p : pipe_kind) (f : file_run) : Prop :=
+  match p with
+  | PRegex _ => pipe_aborts T p f = false /\
+                match fr_raw f with TDone reqs diff => reqs <> [] -> diff <> [] | TRaise => True end
+  | _ => True
   end.
 
 Definition file_ok (f : file_run) : Prop :=
@@ -77,9 +102,23 @@ Proof.
   apply in_map_iff in Hu as [x [<- _]]. reflexivity.
 Qed.
 
+Lemma regex_file_shape rv fv V cd f : file_ctx_shape f (regex_file rv fv V cd f).
+Proof.
+  unfold file_ctx_shape, regex_file.
+  destruct (fr_has_results f && is_nil (fr_findings f)); cbn; auto.
+  destruct (negb (fr_parse_ok f)); [destruct (regex_handles rv); [destruct fv|]; cbn; auto|].
+  assert (HF : forall fc, fc = (if regex_handles rv then fail_ctx fv f r_transform (fr_reported f) (fr_deps f) else empty_file_ctx) ->
+               fc_changesets fc = [] /\ (fc_failures fc = [] \/ fc_failures fc = [fr_path f])).
+  { intros fc ->. destruct (regex_handles rv); [destruct fv|]; cbn; auto. }
+  destruct (fr_raw f) as [|reqs diff]; [left; apply HF; reflexivity|].
+  destruct (regex_changes _ _ _) as [chs|]; [|left; apply HF; reflexivity].
+  destruct (is_nil chs); cbn; auto. right. eexists; repeat split.
+Qed.
+
 Lemma pipe_file_shape T p f : file_ctx_shape f (pipe_file T p f).
 Proof.
-  unfold file_ctx_shape. destruct p as [|cd]; cbn [pipe_file]; [unfold libcst_file|unfold xml_file];
+  destruct p as [|cd|cd]; [| |apply regex_file_shape];
+  unfold file_ctx_shape; cbn [pipe_file]; [unfold libcst_file|unfold xml_file];
   destruct (fr_has_results f && is_nil (fr_findings f)); cbn; auto;
   destruct (negb (fr_parse_ok f)); (destruct (t_fail T); cbn; auto);
   destruct (fr_raw f) as [|reqs diff]; cbn; auto.
@@ -94,13 +133,37 @@ Qed.
 Lemma is_nil_false {A} (l : list A) : is_nil l = false -> l <> [].
 Proof. destruct l; [discriminate|congruence]. Qed.
 
+Lemma regex_file_ok T cd f :
+  strict (t_val T) -> file_ok f -> file_pre T (PRegex cd) f ->
+  forallb changeset_ok (fc_changesets (pipe_file T (PRegex cd) f)) = true /\
+  forallb unfixed_line_ok (fc_unfixed (pipe_file T (PRegex cd) f)) = true.
+Proof.
+  intros HV [Hrel Hrep] [_ Hdiff]. cbn [pipe_file]. unfold regex_file.
+  destruct (fr_has_results f && is_nil (fr_findings f)); cbn; auto.
+  destruct (negb (fr_parse_ok f)).
+  { destruct (regex_handles (t_regex T)); [destruct (t_fail T)|]; cbn; auto.
+    split; [reflexivity|exact (unfixed_fail_ok f r_read [] eq_refl)]. }
+  assert (HF : forall fc, fc = (if regex_handles (t_regex T) then fail_ctx (t_fail T) f r_transform (fr_reported f) (fr_deps f) else empty_file_ctx) ->
+               forallb changeset_ok (fc_changesets fc) = true /\ forallb unfixed_line_ok (fc_unfixed fc) = true).
+  { intros fc ->. destruct (regex_handles (t_regex T)); [destruct (t_fail T)|]; cbn; auto.
+    split; [reflexivity|apply unfixed_fail_ok; assumption]. }
+  destruct (fr_raw f) as [|reqs diff]; [apply HF; reflexivity|].
+  destruct (regex_changes _ _ _) as [chs|] eqn:E; [|apply HF; reflexivity].
+  destruct (regex_changes_strict _ _ _ _ HV E) as [Hok Hnil].
+  destruct (is_nil chs) eqn:En; cbn; auto. split; [|assumption].
+  assert (Hd : is_nil diff = false).
+  { destruct diff; [|reflexivity]. exfalso. apply Hdiff; [|reflexivity]. intros ->. rewrite Hnil in En by reflexivity. discriminate. }
+  unfold changeset_ok. cbn. rewrite Hrel, Hd, En, Hok. reflexivity.
+Qed.
+
 Lemma pipe_file_ok T p f :
-  strict (t_val T) -> good_pipe T p -> file_ok f ->
+  strict (t_val T) -> good_pipe T p -> file_ok f -> file_pre T p f ->
   forallb changeset_ok (fc_changesets (pipe_file T p f)) = true /\
   forallb unfixed_line_ok (fc_unfixed (pipe_file T p f)) = true.
 Proof.
-  intros HV HP [Hrel Hrep].
-  destruct p as [|cd]; cbn [pipe_file good_pipe] in *; [unfold libcst_file|unfold xml_file];
+  intros HV HP Hok Hpre. destruct p as [|cd|cd]; [| |apply regex_file_ok; assumption];
+  destruct Hok as [Hrel Hrep]; clear Hpre;
+  cbn [pipe_file good_pipe] in *; [unfold libcst_file|unfold xml_file];
   destruct (fr_has_results f && is_nil (fr_findings f)); cbn; auto;
   destruct (negb (fr_parse_ok f)); (destruct (t_fail T); cbn [fail_ctx fc_changesets fc_unfixed forallb]; auto);
   try (split; [reflexivity|apply unfixed_fail_ok; reflexivity]);
